@@ -33,6 +33,15 @@ func recogniserOf(p *Program, f *ssa.Function) timeRecogniser {
 				continue
 			}
 			_, side, ok := fieldRef(ta.X)
+			if !ok {
+				// the operand passed through a one-argument in-package helper first
+				// (stripParens(n.LHS))
+				if call, isCall := ta.X.(*ssa.Call); isCall {
+					if cal := call.Call.StaticCallee(); cal != nil && cal.Pkg == f.Pkg && len(call.Call.Args) == 1 {
+						_, side, ok = fieldRef(call.Call.Args[0])
+					}
+				}
+			}
 			if !ok || (side != "LHS" && side != "RHS") {
 				continue
 			}
@@ -188,6 +197,8 @@ func rulesC18(c *Ctx) {
 				c.OK("C18.recognisers", key, stripLit.Pos(), "same side, same case folding as the splitter")
 			}
 		}
+		c.Rule("C18.parens", "the stripper of SetTimeRange looks through parentheses around a comparison's operands when it tests for the time variable: the fold that follows removes such parentheses, so `(time) > x` becomes an ordinary time bound afterwards and, not having been stripped, keeps intersecting with every new window")
+		parenTransparencyRule(c, "C18.parens", "rewriteWithoutTimeDimensions: time operand inside parentheses", stripLit, "*VarRef", "the operands are tested for *VarRef directly: `(time) > '2030-01-01T00:00:00Z'` is not recognised, survives the call, and after the fold it is a plain time bound that contradicts the new window")
 		// the stripper must not replace AND/OR nodes themselves, and must keep everything else
 		callstripC18(c, stripLit)
 	}
@@ -589,4 +600,54 @@ func writebackRule(c *Ctx, rule string, fns ...string) {
 		}
 	}
 	c.Floor(rule, n, 15)
+}
+
+// parenTransparencyRule: a recogniser that looks for a node kind directly
+// under a field does not see the same node inside parentheses.
+func parenTransparencyRule(c *Ctx, rule, key string, f *ssa.Function, kind string, why string) {
+	p := c.P
+	if f == nil {
+		c.Unk(rule, key, 0, "anchor not found")
+		return
+	}
+	fns := append([]*ssa.Function{f}, f.AnonFuncs...)
+	// in-package helpers called with an operand
+	for _, g := range fns {
+		for _, b := range g.Blocks {
+			for _, in := range b.Instrs {
+				if call, ok := in.(*ssa.Call); ok {
+					if cal := call.Call.StaticCallee(); cal != nil && cal.Pkg == f.Pkg && len(cal.Blocks) > 0 && cal.Signature.Recv() == nil && len(fns) < 8 {
+						fns = append(fns, cal)
+					}
+				}
+			}
+		}
+	}
+	looks, unwraps := false, false
+	var pos token.Pos
+	for _, g := range fns {
+		for _, b := range g.Blocks {
+			for _, in := range b.Instrs {
+				if ta, ok := in.(*ssa.TypeAssert); ok {
+					switch p.TypeStr(ta.AssertedType) {
+					case kind:
+						looks = true
+						if pos == 0 {
+							pos = ta.Pos()
+						}
+					case "*ParenExpr":
+						unwraps = true
+					}
+				}
+			}
+		}
+	}
+	switch {
+	case !looks:
+		c.Unk(rule, key, f.Pos(), "no test for "+kind+" found")
+	case unwraps:
+		c.OK(rule, key, pos, "parentheses around the operand are looked through")
+	default:
+		c.Bad(rule, key, pos, why)
+	}
 }
